@@ -48,13 +48,13 @@ def evaluate(patch, demo):
 def main():
     mode = sys.argv[1]
     os.makedirs(SEEDED, exist_ok=True)
-    if mode == "import":
+    if mode in ("import", "import2"):
         for pid in sys.argv[2:]:
             for k in ("1", "2", "3"):
-                src = f"/tmp/seed/out_{pid}"
+                src = f"/tmp/seed/out_{pid}" if mode == "import" else f"/tmp/seed/out2_{pid}"
                 if not os.path.exists(f"{src}/patch{k}.diff"):
                     continue
-                d = f"{SEEDED}/{pid}-{k}"
+                d = f"{SEEDED}/{pid}-{k}" if mode == "import" else f"{SEEDED}/{pid}-{int(k) + 2}"
                 os.makedirs(d, exist_ok=True)
                 shutil.copy(f"{src}/patch{k}.diff", f"{d}/patch.diff")
                 shutil.copy(f"{src}/demo{k}.py", f"{d}/demo.py")
@@ -64,7 +64,8 @@ def main():
                     m = {}
                 meta = {"property": pid, "breaks": m.get("summary", ""), "needs_to_manifest": m.get("needs", ""), "author": "independent sub-agent given only the property text and a scratch worktree"}
                 json.dump(meta, open(f"{d}/meta.json", "w"), indent=1)
-    todo = sorted(os.listdir(SEEDED)) if mode == "rerun" else [f"{p}-{k}" for p in sys.argv[2:] for k in "123" if os.path.isdir(f"{SEEDED}/{p}-{k}")]
+    ks = "123" if mode == "import" else "345"
+    todo = sorted(os.listdir(SEEDED)) if mode == "rerun" else [f"{p}-{k}" for p in sys.argv[2:] for k in ks if os.path.isdir(f"{SEEDED}/{p}-{k}")]
     for name in todo:
         d = f"{SEEDED}/{name}"
         if not os.path.exists(f"{d}/patch.diff"):
